@@ -177,7 +177,7 @@ def run(ctx):
 
     # 3. generated programs, every configuration
     cfgs = qa.all_configs()
-    n_rand = 1500 if quick else 5000
+    n_rand = 1500 if quick else 4000
     for i in range(n_rand):
         cfg = cfgs[i % len(cfgs)].with_layout((i // len(cfgs)) % 2 == 1)
         ops, s = qa.gen_program(repo, cfg, rng, 12 if i % 3 == 0 else 36, want_refusal=(i % 6 == 0))
@@ -189,11 +189,11 @@ def run(ctx):
                 break
     # 4. exhaustive small programs
     depth = 3 if quick else 4
-    ex_cfgs = [qa.Cfg(2, False, False), qa.Cfg(3, True, False, True), qa.Cfg(3, True, True)]
+    ex_cfgs = [(c, depth) for c in (qa.Cfg(2, False, False), qa.Cfg(3, True, False, True), qa.Cfg(3, True, True))]
     if not quick:
-        ex_cfgs += [qa.Cfg(1, False, False), qa.Cfg(4, True, True)]
-    for cfg in ex_cfgs:
-        for d in range(1, depth + 1):
+        ex_cfgs += [(qa.Cfg(1, False, False), 4), (qa.Cfg(4, True, True), 3), (qa.Cfg(3, False, False, True), 3)]
+    for cfg, dmax in ex_cfgs:
+        for d in range(1, dmax + 1):
             for ops in qa.enumerate_programs(cfg, d):
                 ops = [list(o) for o in ops] + [["flush"]]
                 s, key = run_keyed(repo, cfg, ops)
